@@ -18,13 +18,28 @@ def c10_eligible(valid):
 
 
 def c10_units(valid):
-    return [0, 1, 2]  # info, players, rules
+    """0-2: info, players, rules — a failed attempt receives nothing; 3-5 (the section's reply travels as two or more
+    fragments): the reply STOPS HALF WAY — after the challenge rounds a silent attempt still receives some of the fragments
+    and then nothing, a malformed datagram arrives after such a selection, a send fault hits the last request of the
+    attempt (the Valve plans of Spec/ValveFaults.lean: Attempt.got; theorems C10_theship_query_*)"""
+    ch = [int(x) for x in valid.tags["CH"].split(",")]
+    seg = valid.seg()
+    # (replies of 2-4 fragments, at most C10_BASE_CAP bases per unit: see props/families/valve.py)
+    return [0, 1, 2] + [3 + k for k in range(3) if 2 <= seg[k] - ch[k] <= 4]
+
+
+C10_BASE_CAP = {3: 10, 4: 10, 5: 10}
+
+
+def _got(i, frags):
+    """all but the last / only the first / all but the first in reverse order of arrival"""
+    return [frags[:-1], frags[:1], frags[1:][::-1]][i % 3]
 
 
 def c10_known(unit, want_res, got):
     """signature of the recorded finding (known_findings.json): the players / rules units are gathered with Try and then
     required by the conversion, so their exhaustion is reported as PacketBad instead of the timeout-class error"""
-    if unit in (1, 2) and want_res in ("ERR PacketReceive", "ERR PacketSend") and got == "ERR PacketBad":
+    if unit % 3 in (1, 2) and want_res in ("ERR PacketReceive", "ERR PacketSend") and got == "ERR PacketBad":
         return "retry-exhausted:theship:section-reported-as-packetbad"
     return None
 
@@ -38,17 +53,21 @@ def c10_build(valid, unit, v, r, new_id):
     groups = [ds[starts[k]:starts[k] + seg[k]] for k in range(3)]
     newds, faults = [], []
     for k in range(3):
-        if k != unit:
+        if k != unit % 3:
             newds += groups[k]
             faults += [False] * (1 + ch[k])
             continue
-        for e in v:
+        pre = groups[k][:ch[k]] if unit >= 3 else []
+        for i, e in enumerate(v):
             if e == "S":
-                newds.append(None); faults.append(False)
+                newds += pre + (_got(i, groups[k][ch[k]:]) if unit >= 3 else []) + [None]
+                faults += [False] * (len(pre) + 1)
             elif e == "F":
-                faults.append(True)
+                newds += pre
+                faults += [False] * len(pre) + [True]
             elif e == "M":
-                newds.append(malformed.CURRENT); faults.append(False)
+                newds += pre + (_got(i, groups[k][ch[k]:]) if unit >= 3 else []) + [malformed.CURRENT]
+                faults += [False] * (len(pre) + 1)
             else:
                 newds += groups[k]
                 faults += [False] * (1 + ch[k])
@@ -60,7 +79,11 @@ def c10_build(valid, unit, v, r, new_id):
 
 def c10_attempts(valid, unit, sends, clean):
     ch = [int(x) for x in valid.tags["CH"].split(",")]
-    kind_sends = sum(1 for (_, _, data, _) in sends if data[8:10] == ("54", "55", "56")[unit])
+    kind_sends = sum(1 for (_, _, data, _) in sends if data[8:10] == ("54", "55", "56")[unit % 3])
+    if unit >= 3:
+        # every attempt, failed or not, sends 1 + (challenge rounds) datagrams
+        q, rem = divmod(kind_sends, 1 + ch[unit % 3])
+        return q if rem == 0 else -kind_sends
     return kind_sends - (ch[unit] if clean else 0)
 
 
